@@ -999,6 +999,18 @@ func c02close(p *Program, r *Report, rule string) {
 	if fn := p.Func("CloseError.bytes"); fn != nil {
 		p.forAllPaths(r, rule+".bytes", fn, "error propagated", Opts{}, "bytes() returns a non-nil error whenever bytesErr failed", func(pa *Path) (bool, string) {
 			if v, ok := decidedLike(pa, "call:CloseError.bytesErr@@#1 == nil"); ok && !v {
+				// an assertion on the fallback: a panic only after marshalling the constant {StatusInternalError, ""} failed as
+				// well (it cannot) swallows nothing
+				failed := 0
+				re := pat("(call:CloseError.bytesErr@@#1 == nil)")
+				for _, d := range pa.Decisions {
+					if re.MatchString(d.Key) && !d.Val {
+						failed++
+					}
+				}
+				if pa.End == "panic" && failed >= 2 {
+					return true, ""
+				}
 				if retErr(pa) != "nonnil" {
 					return false, "bytesErr failed but bytes() returns " + retErr(pa)
 				}
